@@ -70,6 +70,8 @@ def note_concat(interp, whole, parts, only=None):
     """whole == concat(parts): instantiate additivity of every active counting function."""
     if only is None:
         interp.st.ghost.setdefault('__concats__', []).append((whole, list(parts)))
+        from . import charclass
+        charclass.note_concat(interp, whole, parts)
     fns = _count_fns(interp)
     if not fns:
         return
@@ -188,6 +190,8 @@ def cut(interp, t, a, base='piece'):
     q = _fresh(interp, base)
     st.assume(t == z3.Concat(p, q))
     st.assume(z3.Length(p) == a)
+    if z3.is_int_value(a) and a.as_long() == 1:
+        known_single_char(interp, p)
     decs.append([p, q])
     note_concat(interp, t, [p, q])
     return p, q
@@ -238,6 +242,8 @@ def _decompose_free(interp, t, lens, base):
     for p, n in zip(pieces, lens):
         if n is not None:
             st.assume(z3.Length(p) == _z(n))
+            if isinstance(n, int) and n == 1:
+                known_single_char(interp, p)
     _decomps(interp, t).append(list(pieces))
     note_concat(interp, t, pieces)
     return pieces
@@ -383,12 +389,38 @@ def _strip(interp, s, chars, left, right):
 
 
 def _upred(interp, name, s):
-    """uninterpreted character-class predicate (isalnum, isspace, ...): consistent, otherwise unknown"""
+    """character-class predicate (isalnum, isspace, ...): uninterpreted, except that its value on the empty
+    string and on every single ASCII character is the one CPython gives (ground facts, computed natively).
+    On one-character strings it is a predicate of the code point (keeps the character facts out of the
+    string theory, which is much faster)."""
     f = z3.Function('str.' + name, z3.StringSort(), z3.BoolSort())
+    g = z3.Function('chr.' + name, z3.IntSort(), z3.BoolSort())
     t = _s(s)
     st = interp.st
-    st.assume(z3.Not(f(z3.StringVal(''))))
-    return wrap(f(t))
+    if z3.is_string_value(t) and not _has_escape_val(t):
+        return bool(getattr(t.as_string(), name)())
+    key = '__upred_facts__' + name
+    if key not in st.ghost:
+        st.ghost[key] = True
+        st.assume(z3.Not(f(z3.StringVal(''))))
+        st.assume(z3.And(*[g(i) if getattr(chr(i), name)() else z3.Not(g(i)) for i in range(128)]))
+    if t.get_id() in st.ghost.get('__len1__', {}):
+        return wrap(g(z3.StrToCode(t)))
+    return wrap(z3.If(z3.Length(t) == 1, g(z3.StrToCode(t)), f(t)))
+
+
+def known_single_char(interp, t):
+    """record that the term t is known (assumed) to have length 1"""
+    interp.st.ghost.setdefault('__len1__', {})[t.get_id()] = t
+
+
+def _charval(c):
+    return z3.Unit(z3.CharVal(ord(c))) if hasattr(z3, 'CharVal') else z3.StringVal(c)
+
+
+def _has_escape_val(t):
+    sv = t.as_string()
+    return '\\u{' in sv or '\\x' in sv
 
 
 def call_method(interp, recv, name, args, kwargs):
@@ -398,8 +430,19 @@ def call_method(interp, recv, name, args, kwargs):
     if name in ('startswith', 'endswith'):
         f = z3.PrefixOf if name == 'startswith' else z3.SuffixOf
         x = args[0]
-        if len(args) > 1:
-            raise Unsupported('%s with start/end' % name)
+        if len(args) > 2:
+            raise Unsupported('%s with end' % name)
+        if len(args) == 2:
+            if name == 'endswith':
+                raise Unsupported('endswith with start')
+            # s.startswith(x, start)  ==  start <= len(s) and s[start:].startswith(x)
+            start = args[1]
+            L = z3.Length(t)
+            a = z3.simplify(_norm_index(start, L, interp))
+            if not st.fork(wrap(_s(start) <= L)):
+                return False
+            tail = getitem(interp, recv, slice(wrap(a), None, None))
+            return call_method(interp, tail, name, [x], kwargs)
         tn = norm(interp, t)
         if isinstance(x, tuple):
             return wrap(z3.Or(*[f(_sn(interp, y), tn) for y in x])) if x else False
